@@ -24,6 +24,7 @@ RULE = ("(a) fed sequences of 2..14 (objective, violation) pairs drawn from a "
         "a value exactly at the tolerance or an eviction; distinct = "
         "canonical pattern of the (f, v) sequence (a) / spec signature + "
         "clause (b)")
+RULE += ("  Also (b'): non-default feasibility tolerances (0, 1e-14, 1e-3) on problems whose solution lies on a curved constraint approached from outside; knife-edge judged with each point's own rounding slack.")
 ASSUMPTIONS = [
     "only the clauses the statement fixes are demanded (S1 feasible-first "
     "least objective, S2 least merit + not dominated + NaN never preferred, "
